@@ -577,6 +577,14 @@ pub fn main(a: &Args) {
                     l.written = "./glyphs".into();
                 }
             }
+            // and a layer in a nested directory: only the last component becomes Layer::path
+            u.layers.push(LayerU {
+                name: "deep".into(),
+                dir: "nested/glyphs.deep".into(),
+                written: "nested/glyphs.deep".into(),
+                glyphs: vec![("n".into(), "n.glif".into(), 77)],
+                info: 78,
+            });
         }
         let root = a.out.join(format!("u17_{}", ui)).join("u");
         write_ufo(&root, &u, &[], &[]);
